@@ -71,13 +71,37 @@ def plant_tiny(rng, case):
     return case
 
 
+def gen_q2_case(rng):
+    """inequalities AND an equality with q = 2: the folded lists are longer than the given ones, and which multipliers are
+    sign-constrained (those of folded inequalities only) decides whether the value is a bound"""
+    if rng.random() < 0.7:
+        # (y - a)^2 over y >= b with b < a (y = e^x): the minimum 0 is attained INSIDE the feasible set, where g and g*g are positive
+        a, b = F(rng.choice([2, 3])), F(rng.choice([1, F(1, 2)]))
+        f = rm.sig_leaf([[F(2)], [F(1)], [F(0)]], [F(1), -2 * a, a * a])
+        gts = [rm.sig_leaf([[F(1)], [F(0)]], [F(1), -b])]
+        if rng.random() < 0.5:
+            gts.append(rm.sig_leaf([[F(0)], [F(1)]], [F(8), F(-1)]))
+        return {'f': f, 'gts': gts, 'eqs': [], 'p': 0, 'q': 2, 'ell': 0, 'slacks': rng.random() < 0.5, 'infer': False, 'q2': True}
+    n = rng.randint(1, 2)
+    f = rm.gen_sig(rng, n=n, m=rng.randint(2, 4))
+    rows = [[F(0)] * n] + [[F(rng.randint(0, 2)) for _ in range(n)] for _ in range(rng.randint(1, 2))]
+    rows = [list(r) for r in dict.fromkeys(tuple(r) for r in rows)]
+    gts = [rm.sig_leaf(rows, [F(rng.randint(3, 9))] + [F(-rng.randint(1, 2)) for _ in rows[1:]])]
+    if rng.random() < 0.4:
+        gts.append(rm.sig_leaf([[F(0)] * n, [F(1)] + [F(0)] * (n - 1)], [F(rng.randint(2, 5)), F(-1)]))
+    eqs = [rm.sig_leaf([[F(0)] * n, [F(1)] + [F(0)] * (n - 1)], [F(rng.choice([1, 2])), F(-1)])]
+    return {'f': f, 'gts': gts, 'eqs': eqs, 'p': 0, 'q': 2, 'ell': 0, 'slacks': rng.random() < 0.5, 'infer': False, 'q2': True}
+
+
 def gen_case(rng):
     r0 = rng.random()
     if r0 < 0.2:
         return gen_tenths_case(rng)
+    if r0 < 0.44 and r0 >= 0.32:
+        return gen_q2_case(rng)
     if r0 < 0.3:
         return gen_twin_case(rng)
-    if r0 < 0.4:
+    if r0 < 0.32:
         return plant_tiny(rng, gen_case(rng))
     n = rng.randint(1, 2)
     f = rm.gen_sig(rng, n=n, m=rng.randint(2, 4))
@@ -242,6 +266,7 @@ def run(ctx):
     common.run_regressions(ctx, 'C04', recheck)
     N = 60 if quick else 400
     cases = [gen_case(rng) for _ in range(N)]
+    cases += [gen_q2_case(rng) for _ in range(4 if quick else 30)]          # (never left to the luck of the draw)
     reals = []
     for c in cases:
         try:
@@ -315,7 +340,7 @@ def run(ctx):
             ctx.violation('Lagrangian identity: ' + why, {'stream': 'lagrangian', 'case': c})
     # ---- audit of the solved relaxations
     naud = 25 if quick else 200
-    for c in cases[:naud]:
+    for c in cases[:naud] + [c for c in cases[naud:] if c.get('q2')][:(4 if quick else 30)]:
         audit_case(ctx, rng, c)
     if (not ctx.lean.ok or ctx.disagreements) and not ctx.violations:
         common.broken_report(ctx, 'Lagrangian identity and bound audits found no failing input among %d cases' % N)
